@@ -172,7 +172,9 @@ def load_findings(pid):
 # -- child processes ---------------------------------------------------------
 
 SAN_ENV = {
-    "ASAN_OPTIONS": "abort_on_error=0:exitcode=66:detect_leaks=1:allocator_may_return_null=1:handle_abort=1:detect_stack_use_after_return=0",
+    # hard_rss_limit_mb: a runaway allocation in the code under test (seen with a seeded constant-pool change) must end
+    # as a sanitizer report of that one child, not as an out-of-memory kill of the machine (16 children run at once)
+    "ASAN_OPTIONS": "abort_on_error=0:exitcode=66:detect_leaks=1:allocator_may_return_null=1:handle_abort=1:detect_stack_use_after_return=0:hard_rss_limit_mb=%d" % int(os.environ.get("VERIF_RSS_LIMIT_MB", "8000")),
     "UBSAN_OPTIONS": "print_stacktrace=1:halt_on_error=1:exitcode=67",
     "LSAN_OPTIONS": "exitcode=68",
 }
